@@ -28,7 +28,7 @@ EXPLANATION = (
 )
 NOT_DECIDED = ["identity of member content with direct extraction (bytes, decompression correctness of LZMA/LZMA2/deflate)", "7z header parsing arithmetic (pack sizes, substream sizes, file-to-folder map) as values"]
 TRUSTED = ["zipfile.infolist / tarfile.getmembers return members in archive order", "CFG / lexical path conditions"]
-FLOORS = {"C10-EXACT": 8, "C10-CODEC": 6, "C10-LABEL": 10, "C10-STEP": 2, "C10-ENDIAN": 4, "C10-KIND": 3, "C10-ORDER": 4, "C10-SIB": 6, "C10-FOLDER": 3, "C10-DISPATCH": 6}
+FLOORS = {"C10-EXACT": 8, "C10-CODEC": 6, "C10-LABEL": 10, "C10-STEP": 2, "C10-ENDIAN": 4, "C10-KIND": 3, "C10-ORDER": 4, "C10-SIB": 6, "C10-FOLDER": 3, "C10-DISPATCH": 6, "C10-TABLES": 50}
 
 READS = {"_extract_from_zip_optimized": ("read", "info"), "_extract_from_tar_optimized": ("extractfile", "member")}  # method that reads one member
 
@@ -240,6 +240,28 @@ def rule_label(ctx: Ctx) -> RuleReport:
             rep.ok({"_process_archive_entry": "member results are labelled lexically (resolve=False) before they are yielded"})
         else:
             rep.fail(Finding("C10-LABEL", ARCH, pe.qual, "member label resolved on the host", "the results of a member keep the label computed by populate_from_path(<member name>) with resolve=True: a relative member name is resolved against the working directory of the host (and against files that happen to exist there), so the same archive bytes give different file_path / folder_path on different hosts", line=loops[0].lineno))
+    # the lexical label is the member name as it stands: built from the text of the argument, not from a pathlib.Path made of it
+    # (Path('x.tar!/./a//b') is 'x.tar!/a/b': the label would no longer be the member's name)
+    from sa.rules.common import DT as _DT
+
+    pp = ctx.p.func(_DT, "FileMetadataInterface.populate_from_path")
+    rep.unit(pp.key)
+    prm = pp.node.args.args[1].arg if len(pp.node.args.args) > 1 else "path"
+    path_objs = {a.targets[0].id for a in walk_own(pp.node) if isinstance(a, ast.Assign) and len(a.targets) == 1 and isinstance(a.targets[0], ast.Name) and isinstance(a.value, ast.Call) and (dotted(a.value.func) or "").split(".")[-1] in ("Path", "PurePath", "PurePosixPath")}
+    lex = [i for i in walk_own(pp.node) if isinstance(i, ast.If) and norm(i.test) in ("not resolve", "resolve is False", "resolve == False")]
+    if not lex:
+        raise AnalysisError("C10-LABEL: the resolve=False branch of populate_from_path was not found")
+    derived = set()
+    for a in [x for st in lex[0].body for x in ast.walk(st) if isinstance(x, ast.Assign)]:
+        for t in a.targets:
+            names = {x.id for x in ast.walk(a.value) if isinstance(x, ast.Name)}
+            if isinstance(t, ast.Attribute) and t.attr in ("file_path", "folder_path"):
+                if names & (path_objs | derived):
+                    rep.fail(Finding("C10-LABEL", _DT, pp.qual, f"lexical {t.attr} from a Path object: {anorm(a.value, pp.node)}", f"with resolve=False `{short(a, 60)}` builds the label from a pathlib.Path: Path() folds './' and '//' and drops a trailing '/', so the label of the member './name' (what `tar -cf x.tar .` writes) is no longer its name", line=a.lineno))
+                else:
+                    rep.ok({"populate_from_path(resolve=False)": f"{t.attr} = {short(a.value, 40)}"})
+            elif isinstance(t, (ast.Name, ast.Tuple)) and names & (path_objs | derived):
+                derived |= {x.id for x in ast.walk(t) if isinstance(x, ast.Name)}
     if good_loop:
         rep.ok({"_process_archive_entry": "yields every result of extractor(file_bytes, path=full_path)"})
     else:
@@ -1043,4 +1065,18 @@ def rule_codec(ctx: Ctx) -> RuleReport:
     return rep
 
 
-RULES = [rule_label, rule_step, rule_endian, rule_kind, rule_order, rule_sib, rule_folder, rule_dispatch, rule_exact, rule_codec]
+def rule_tables(ctx: Ctx) -> RuleReport:
+    """The member filter asks the router twice (is it supported? is it an archive?), outside the per-member handler: when the router's
+    tables disagree -- a MIME type mapped to a file type that has no extractor -- the first such member raises out of the filter and the
+    whole archive fails (= C07-TABLES)."""
+    from sa.rules.c07 import rule_tables as r07
+
+    rep = r07(ctx)
+    rep.rule = "C10-TABLES"
+    rep.description = "the router's tables are closed (every mapped file type has an extractor): the member filter, which consults them outside the per-member handler, cannot raise for a member"
+    for f in rep.findings:
+        f.rule = "C10-TABLES"
+    return rep
+
+
+RULES = [rule_label, rule_step, rule_endian, rule_kind, rule_order, rule_sib, rule_folder, rule_dispatch, rule_exact, rule_codec, rule_tables]
